@@ -323,6 +323,25 @@ pub fn putresult_structural(out: &mut ShardOut) {
             bad = Some(format!("clone/copy of {:?} is {:?}/{:?}", x, cl, cp));
         }
     }
+    // payloads whose own equality is not reflexive: equality of results is a function of the
+    // variant and the payloads' equality only (never of object identity)
+    {
+        let nan = f64::NAN;
+        let rs: Vec<P<u32, f64>> = vec![P::Update(nan), P::Evicted { key: 1, value: nan }, P::EvictedAndUpdate { evicted: (1, 1.0), update: nan }, P::EvictedAndUpdate { evicted: (1, nan), update: 1.0 }];
+        for r in &rs {
+            #[allow(clippy::eq_op)]
+            let same_obj = r == r;
+            let copy = *r;
+            if same_obj || *r == copy || !(*r != copy) {
+                bad = Some(format!("{:?} compares equal to itself/its copy although its NaN payload is not equal to itself", r));
+            }
+        }
+        let one: P<u32, f64> = P::Update(1.0);
+        #[allow(clippy::eq_op)]
+        if !(one == one) {
+            bad = Some("Update(1.0) != Update(1.0)".to_string());
+        }
+    }
     // heap-owning payloads: clone must be deep-equal and independent
     let s = |x: &str| x.to_string();
     let owned: Vec<P<String, String>> = vec![P::Put, P::Update(s("a")), P::Evicted { key: s("k"), value: s("v") }, P::EvictedAndUpdate { evicted: (s("k"), s("v")), update: s("u") }, P::Evicted { key: s("k"), value: s("w") }, P::EvictedAndUpdate { evicted: (s("k"), s("v")), update: s("x") }];
@@ -455,9 +474,29 @@ pub fn config_propagation(out: &mut ShardOut, prop: &str) {
         cov.monitored += 1;
         cov.triples.insert(format!("config|{}", what));
     };
+    // ---- RawLRU: the capacity handed to a constructor is the capacity enforced, at any size
+    if matches!(prop, "C01" | "C06" | "C12") {
+        use caches::RawLRU;
+        for &n in &[1usize, 7, 1000, 5000, 70_000, 1 << 20] {
+            let caps = [
+                ("RawLRU::new", RawLRU::<u32, u32>::new(n).ok().map(|c| c.cap())),
+                ("RawLRU::with_hasher", RawLRU::<u32, u32, _, _>::with_hasher(n, h()).ok().map(|c| c.cap())),
+                ("RawLRU::with_on_evict_cb", RawLRU::<u32, u32, LogCb>::with_on_evict_cb(n, LogCb).ok().map(|c| c.cap())),
+                ("RawLRU::with_on_evict_cb_and_hasher", RawLRU::<u32, u32, LogCb, _>::with_on_evict_cb_and_hasher(n, LogCb, h()).ok().map(|c| c.cap())),
+            ];
+            for (name, got) in caps {
+                if let Some(g) = got {
+                    if g != n {
+                        bad = Some(format!("{}({}) builds a cache with cap() = {}", name, n, g));
+                    }
+                }
+            }
+            note(&mut out.cov, &format!("lru|{}", n));
+        }
+    }
     // ---- SegmentedCache
-    if matches!(prop, "C01" | "C07") {
-        for &(a, b) in &[(1usize, 1usize), (1, 3), (3, 1), (2, 5), (7, 2)] {
+    if matches!(prop, "C01" | "C07" | "C12") {
+        for &(a, b) in &[(1usize, 1usize), (1, 3), (3, 1), (2, 5), (7, 2), (70_000, 3), (3, 100_000), (5000, 6000)] {
             let mut chk = |name: &str, c: &dyn Fn() -> Option<(usize, usize, usize, usize, usize)>| {
                 if let Some((pc, tc, plc, tlc, cap)) = c() {
                     if (pc, tc, plc, tlc, cap) != (a, b, a, b, a + b) {
@@ -480,11 +519,11 @@ pub fn config_propagation(out: &mut ShardOut, prop: &str) {
         }
     }
     // ---- TwoQueueCache
-    if matches!(prop, "C01" | "C08") {
+    if matches!(prop, "C01" | "C08" | "C12") {
         fn view<RH: std::hash::BuildHasher, FH: std::hash::BuildHasher, GH: std::hash::BuildHasher>(c: &TwoQueueCache<u32, u32, RH, FH, GH>) -> (usize, usize, usize, usize, usize) {
             (c.cap(), c.verif_recent().cap(), c.verif_frequent().cap(), c.verif_recent_quota(), c.verif_ghost().cap())
         }
-        for &(n, rr, gr) in &[(4usize, 0.25f64, 0.5f64), (10, 0.2, 0.8), (10, 0.8, 0.2), (3, 0.0, 1.0), (7, 1.0, 0.34), (16, 0.3, 0.4), (5, 0.5, 0.5)] {
+        for &(n, rr, gr) in &[(4usize, 0.25f64, 0.5f64), (10, 0.2, 0.8), (10, 0.8, 0.2), (3, 0.0, 1.0), (7, 1.0, 0.34), (16, 0.3, 0.4), (5, 0.5, 0.5), (100_000, 0.25, 0.5), (70_000, 1.0, 1.0), (5000, 0.29, 0.58), (100, 0.29, 0.58), (50, 0.58, 0.29), (1000, 0.7, 0.7)] {
             let exp = (n, n, n, ((n as f64) * rr).floor() as usize, ((n as f64) * gr).floor() as usize);
             let mut chk = |name: &str, got: Option<(usize, usize, usize, usize, usize)>, e: (usize, usize, usize, usize, usize)| {
                 if let Some(g) = got {
@@ -505,11 +544,11 @@ pub fn config_propagation(out: &mut ShardOut, prop: &str) {
         }
     }
     // ---- AdaptiveCache
-    if matches!(prop, "C01" | "C09") {
+    if matches!(prop, "C01" | "C09" | "C12") {
         fn view<A: std::hash::BuildHasher, B: std::hash::BuildHasher, C: std::hash::BuildHasher, D: std::hash::BuildHasher>(c: &AdaptiveCache<u32, u32, A, B, C, D>) -> (usize, usize, usize, usize, usize, usize) {
             (c.cap(), c.verif_recent().cap(), c.verif_frequent().cap(), c.verif_recent_evict().cap(), c.verif_frequent_evict().cap(), c.partition())
         }
-        for &n in &[1usize, 2, 5, 16] {
+        for &n in &[1usize, 2, 5, 16, 5000, 100_000] {
             let exp = (n, n, n, n, n, 0);
             let mut chk = |name: &str, got: Option<(usize, usize, usize, usize, usize, usize)>| {
                 if let Some(g) = got {
@@ -530,6 +569,100 @@ pub fn config_propagation(out: &mut ShardOut, prop: &str) {
     }
 }
 
+/// C06 with a zero-sized value type: recency order is about keys; nothing may be short-cut
+/// because "there is no value to store". Same LRU model, values erased.
+pub fn zst_value_order(out: &mut ShardOut, rng: &mut Rng, histories: u64) {
+    use crate::model::{Model, NoEst};
+    use caches::{Cache, PutResult, RawLRU, ResizableCache};
+    for _ in 0..histories {
+        let cap = rng.range(1, 6) as usize;
+        let nkeys = cap as u64 + rng.range(1, 3);
+        let cfg = Cfg::lru(cap);
+        let mut model = Model::new(&cfg);
+        let mut real: RawLRU<u32, (), caches::DefaultEvictCallback, DynBH> = match RawLRU::with_hasher(cap, DynBH::new(HKind::Fnv)) {
+            Ok(r) => r,
+            Err(_) => continue,
+        };
+        let n = rng.range(5, 40);
+        let mut trace: Vec<String> = vec![];
+        for i in 0..n {
+            let k = rng.below(nkeys) as u32;
+            let op = match rng.below(12) {
+                0..=4 => Op::Put(k),
+                5..=6 => Op::Get(k, false),
+                7 => Op::GetMut(k, false, false),
+                8 => Op::Remove(k, false),
+                9 => Op::GetLru,
+                10 => Op::PeekOrPut(k),
+                _ => Op::Resize(rng.below(cap as u64 + 2) as usize),
+            };
+            let r = guarded(|| -> Option<u32> {
+                match op {
+                    Op::Put(k) => match real.put(k, ()) {
+                        PutResult::Evicted { key, .. } => Some(key),
+                        _ => None,
+                    },
+                    Op::Get(k, _) => {
+                        real.get(&k);
+                        None
+                    }
+                    Op::GetMut(k, _, _) => {
+                        real.get_mut(&k);
+                        None
+                    }
+                    Op::Remove(k, _) => {
+                        real.remove(&k);
+                        None
+                    }
+                    Op::GetLru => {
+                        real.get_lru();
+                        None
+                    }
+                    Op::PeekOrPut(k) => match real.peek_or_put(k, ()).1 {
+                        Some(PutResult::Evicted { key, .. }) => Some(key),
+                        _ => None,
+                    },
+                    Op::Resize(n) => {
+                        real.resize(n);
+                        None
+                    }
+                    _ => None,
+                }
+            });
+            let evicted = match r {
+                Ok(e) => e,
+                Err(_) => break,
+            };
+            // values of the model are irrelevant: every value id is 0
+            let outs = model.step(&op, 0, &NoEst);
+            trace.push(op.to_string());
+            let got: Vec<u32> = real.keys().copied().collect();
+            let mut ok = false;
+            let mut exp_desc = String::new();
+            for o in &outs {
+                let exp: Vec<u32> = o.st.lists[0].iter().map(|e| e.0).collect();
+                let exp_ev = match &o.res {
+                    Res::Put(PR::Evicted(k, _)) | Res::OrPut(_, _, Some(PR::Evicted(k, _))) => Some(*k),
+                    _ => None,
+                };
+                exp_desc = format!("{:?} (evicting {:?})", exp, exp_ev);
+                if exp == got && exp_ev == evicted && real.cap() == o.st.cap {
+                    model.st = o.st.clone();
+                    ok = true;
+                    break;
+                }
+            }
+            out.cov.monitored += 1;
+            out.cov.triples.insert(format!("zst-values|lru|{}|cap{}", op.name(), cap));
+            if !ok {
+                out.add(simple_found("C06", "zst-value-order", format!("RawLRU<u32, ()> cap {}: after [{}] the keys are {:?} (evicted {:?}), the LRU order prescribes {}", cap, trace.join("; "), got, evicted, exp_desc)));
+                return;
+            }
+            let _ = i;
+        }
+    }
+}
+
 /// C10: every constructor must hand the requested sizes and sample size to the parts (the
 /// reset schedule of the estimator is part of "records one access ... for all sample sizes")
 fn wtlfu_config_propagation(out: &mut ShardOut) {
@@ -538,15 +671,18 @@ fn wtlfu_config_propagation(out: &mut ShardOut) {
     let mut check = |name: String, c: &WTinyLFUCache<u32, u32>, w: usize, t: usize, p: usize, samples: usize| {
         let d = c.verif_estimator().verif_digest();
         let m = c.verif_main();
-        if d.1 != samples || c.window_cache_cap() != w || m.protected_cap() != t || m.probationary_cap() != p || c.cap() != w + t + p || d.0 != 0 {
+        if d.1 != samples || c.window_cache_cap() != w || m.protected_cap() != t || m.probationary_cap() != p || c.cap() != w + t + p || d.0 != 0
+            || c.verif_window().cap() != w || m.verif_protected().cap() != t || m.verif_probationary().cap() != p
+        {
             bad = Some(format!(
                 "{}: built with window {} / protected {} / probationary {} / samples {} (reset clock {}), requested {} / {} / {} / {}",
                 name, c.window_cache_cap(), m.protected_cap(), m.probationary_cap(), d.1, d.0, w, t, p, samples
             ));
         }
     };
-    for &(w, t, p, s) in &[(1usize, 1usize, 1usize, 1usize), (1, 2, 3, 4), (3, 1, 2, 7), (2, 8, 2, 100), (1, 3, 1, 2)] {
+    for &(w, t, p, s) in &[(1usize, 1usize, 1usize, 1usize), (1, 2, 3, 4), (3, 1, 2, 7), (2, 8, 2, 100), (1, 3, 1, 2), (5000, 70_000, 6000, 100_000)] {
         if let Ok(c) = WTinyLFUCache::<u32, u32>::with_sizes(w, t, p, s) {
+
             check(format!("with_sizes({}, {}, {}, {})", w, t, p, s), &c, w, t, p, s);
         }
         out.cov.monitored += 1;
@@ -675,12 +811,16 @@ pub fn engine_suite(ctx: &Ctx) -> ShardOut {
     if ctx.prop == "C10" && ctx.shard == 0 {
         wtlfu_config_propagation(&mut out);
     }
-    if matches!(ctx.prop.as_str(), "C01" | "C07" | "C08" | "C09") && ctx.shard == 0 {
+    if matches!(ctx.prop.as_str(), "C01" | "C06" | "C07" | "C08" | "C09" | "C12") && ctx.shard == 0 {
         config_propagation(&mut out, &ctx.prop);
     }
     if ctx.prop == "C04" {
         let mut r = Rng::new(mix(ctx.seed, 0xC04C) ^ ctx.shard);
         conversions_conserve(&mut out, &mut r);
+    }
+    if ctx.prop == "C06" && !cfg!(miri) {
+        let mut r = Rng::new(mix(ctx.seed, 0xC062) ^ ctx.shard);
+        zst_value_order(&mut out, &mut r, 2000);
     }
     if ctx.prop == "C12" && ctx.shard == 0 {
         putresult_structural(&mut out);
@@ -724,6 +864,20 @@ pub fn engine_suite(ctx: &Ctx) -> ShardOut {
                     record(&mut out, &cfg, kt, &ops, &opts, r.violations);
                 }
             }
+        }
+    }
+
+    // ---- 1a. a few histories with thousands of entries (thresholds such as 1024 or 4096 in
+    //          capacities, lengths and single-call eviction counts), native builds only
+    if !cfg!(miri) && ctx.shard < (if props.needs_probes() { 1 } else { 2 }) && ctx.variant != "valgrind" && ctx.variant != "asan" {
+        for &kind in &kinds {
+            let (cfg, ops, uni) = huge_history(kind, ctx.shard as usize, &mut rng);
+            let kt = if prop == "C04" || ctx.shard == 0 { KeyType::Tracked } else { KeyType::Str };
+            let mut opts = RunOpts::new(props, uni);
+            opts.lookup_audit = false;
+            let r = run_history(&cfg, kt, &ops, &opts, &mut out.cov);
+            out.notes.bump("huge-history");
+            record(&mut out, &cfg, kt, &ops[..r.steps_done.min(ops.len())], &opts, r.violations);
         }
     }
 
